@@ -92,7 +92,7 @@ pub fn run(args: &Args) {
                 let bytes = bytes_of(&v["bytes"]);
                 res.case(fnv(&bytes), true);
                 let small = json!({"bytes": v["bytes"]});
-                match guarded(|| decode_rda_status_message(&mut bytes.as_slice())) {
+                match guarded(|| if dribbled(&bytes) { decode_rda_status_message(&mut Dribble::new(&bytes)) } else { decode_rda_status_message(&mut bytes.as_slice()) }) {
                     Ok(Ok(m)) => {
                         let got = rda_message(&m);
                         for (k, want) in fields_from_json(&v["fields"]) { if got.get(&k) != Some(&want) { res.mismatch("violation", &format!("C12/field/{k}"), format!("expected {:?} got {:?}", want, got.get(&k)), small.clone()); } }
